@@ -41,8 +41,10 @@ func hostileRun(prop string, stmts []ast.Node, doOut bool, family string, extra 
 	ref.Budget = 300000
 	ref.SetStdin("line one\nline two\n")
 	refTerminates := make([]bool, len(stmts))
+	refSteps := make([]int, len(stmts))
 	for i, st := range stmts {
 		w := ref.Exec(st)
+		refSteps[i] = w.Stats.Steps
 		if w.TooBig {
 			res.Verdict, res.Reason = core.Dropped, "too-big"
 			return res
@@ -61,6 +63,12 @@ func hostileRun(prop string, stmts []ast.Node, doOut bool, family string, extra 
 	ses.StepLimit = 200000
 	diverged := false
 	for i, src := range text {
+		// the step limit follows the reference's own effort (the VM takes a handful of instructions per
+		// evaluation step of the reference); a fixed limit called a 203 000-step pipeline a hang
+		ses.StepLimit = 200000
+		if i < len(refSteps) && refTerminates[i] {
+			ses.StepLimit = 200*refSteps[i] + 200000
+		}
 		obs := ses.Exec(src, doOut)
 		res.Add("statements_executed", len(obs))
 		for _, o := range obs {
